@@ -535,6 +535,11 @@ inductive Op
   | insStyleText (sels : List SSel) (idx : Option Nat) (inOrder : Bool)
   /-- `insertRule(rule, idx, inOrder)` for a style rule object built elsewhere (its items are already resolved) -/
   | insStyleObj (sels : List Sel) (idx : Option Nat) (inOrder : Bool)
+  /-- `sheet.cssRules[i].cssText = '@namespace p "u";'` on an @namespace rule of the sheet -/
+  | setNsText (i : Nat) (p u : Cps) (c0 c1 c2 : Bool)
+  /-- `del sheet.cssRules[i]` / `sheet.cssRules.pop(i)`: the list operation itself, not `deleteRule` (the
+  assignment `cssRules.__delitem__ = self.deleteRule` on the instance does not reach the `del` statement) -/
+  | rawDel (i : Nat)
   deriving Repr
 
 def step (s : Sheet) : Op → Sheet × Outcome
@@ -576,6 +581,16 @@ def step (s : Sheet) : Op → Sheet × Outcome
       | .error e => (s, .err e)
       | .ok x => insertStyle s (.style x) idx inOrder
   | .insStyleObj sels idx inOrder => insertStyle s (.style sels) idx inOrder
+  | .setNsText i p u c0 c1 c2 => match s[i]? with
+    | some (.ns n) =>
+      -- `self.namespaceURI = new['uri']` comes first and refuses another URI (`cssnamespacerule.py:214-221`);
+      -- then `_prefix` and the seq are set directly, without the check of the prefix setter
+      if n.uri ≠ u then (s, .err .noModificationAllowedErr)
+      else (s.set i (.ns (mkNsText p u c0 c1 c2)), .ok none)
+    | _ => (s, .err .badTarget)
+  | .rawDel i => match s[i]? with
+    | some _ => (s.eraseIdx i, .ok none)
+    | none => (s, .err .badTarget)
 
 def run (s : Sheet) : List Op → Sheet
   | [] => s
